@@ -36,7 +36,7 @@ def generate(rng, tier):
     cases = []
     thorough = tier == "thorough"
     specs = specs_pool(rng, 40 if thorough else 10)
-    for k in range(3000 if thorough else 450):
+    for k in range(3000 * TH if thorough else 450):
         if k % 10 == 3:
             sp, data, nodes = long_header_doc(rng)
             kind = "longhdr"
